@@ -265,7 +265,8 @@ def run_case(chk, ob, ip, prog, case, props, extra_judge=None):
         if case.custom:
             eff, customV = custom_reference(data, complete, dec, case.shards or [case.roles])
         V = HE.judge(data, eff, dec, cache_on=bool(case.cache), expect_incomplete=inc, denied=denied, allow_pooler_replies=bool(case.plugins or case.custom),
-                     idle_rule=(case.mode == 'transaction' and not case.plugins and not case.custom and eff is complete))
+                     idle_rule=(case.mode == 'transaction' and not case.plugins and not case.custom and eff is complete),
+                     stats_rule=('C18' in props and not case.plugins and not case.custom and eff is complete))
         V += customV
         if case.params is not None:
             V += c12_reference(data, complete, dec, case.params)
@@ -290,6 +291,8 @@ def run_case(chk, ob, ip, prog, case, props, extra_judge=None):
             hexs = bytes(model_byte(m, b) for b in sent).hex()
             cmd = {'op': 'handle_script', 'client_hex': hexs, 'eof': True, 'mode': case.mode, 'cache': case.cache,
                    'roles': ['primary' if r == 0 else 'replica' for r in case.roles]}
+            if prop == 'C18':
+                cmd['probe_b'] = False
             if prop == 'C10':
                 mm_ = re.search(r'before reading message (\d+)', text)
                 if mm_:
@@ -866,6 +869,9 @@ def h_violation(prop, key, cache_on, incomplete, hexs, n_before=None, denied_hex
                 hit = [1] if ents else []
             else:
                 hit = [1] if not ents else []
+        if prop == 'C18' and key.startswith('H/client-never-unregistered'):
+            # natively: the client's task is over but SHOW CLIENTS would still list it
+            hit = [1] if (r.get('a_result') != 'still-running' and r.get('clients_after_a')) else []
         if prop == 'C17':
             aout = bytes.fromhex(r.get('a_out', ''))
             announced = b'terminating connection due to administrator command' in aout and r.get('a_result') == 'ok'
